@@ -17,6 +17,7 @@ struct PoolGeometry {
   size_t tableCapacity = 0;
   size_t maxPools = 0;
   size_t usedSlots = 0;   // slots handed out by the pools (bump pointer)
+  size_t slotCapacity = 0;  // slots the pools in the table can hold (a pool cut short by shrinkToFit holds fewer)
   size_t freeListLen = 0;
   size_t deadPools = 0;   // pools without storage (their allocation failed)
   size_t lastPoolUsage = 0, lastPoolCapacity = 0;
@@ -47,6 +48,7 @@ struct Inspector {
     g.inlineTable = pl.pools_ == pl.preallocatedPools_;
     for (size_t i = 0; i < pl.count_; i++) {
       g.usedSlots += pl.pools_[i].usage_;
+      g.slotCapacity += pl.pools_[i].capacity_;
       if (!pl.pools_[i].slots_)
         g.deadPools++;
     }
